@@ -100,6 +100,7 @@ type mail struct {
 	v     any
 	flag  atomic.Int32
 	taken bool
+	tag   int64
 }
 
 var mailbox []*mail
@@ -137,16 +138,21 @@ func Recv[T any](ch <-chan T) (T, bool) {
 	}
 	id := chanID(ch)
 	syncPoint(s, -1)
+	chanTagBack(id)
 	for {
 		pumpWatchers()
 		pumpTimers()
 		select {
 		case v, ok := <-ch:
+			if ok {
+				chanTagPop(id)
+			}
 			return v, ok
 		default:
 		}
 		if m := mailTake(id); m != nil {
 			chanWake()
+			mailTag(m)
 			v, _ := m.v.(T)
 			return v, true
 		}
@@ -172,6 +178,7 @@ func Send[T any](ch chan<- T, v T) {
 		for {
 			select {
 			case ch <- v:
+				chanTagPush(*(*unsafe.Pointer)(unsafe.Pointer(&ch)))
 				chanWake()
 				return
 			default:
@@ -180,6 +187,8 @@ func Send[T any](ch chan<- T, v T) {
 		}
 	}
 	m := mailPut(*(*unsafe.Pointer)(unsafe.Pointer(&ch)), v)
+	m.tag = s.cur.Tag
+	s.tagAcquire(m.tag)
 	chanWake()
 	for !mailTaken(m) {
 		chanPark(nil)
@@ -188,6 +197,21 @@ func Send[T any](ch chan<- T, v T) {
 
 //go:norace
 func mailTaken(m *mail) bool { return m.taken }
+
+// mailTag hands the reference of a rendezvous value to its receiver.
+//
+//go:norace
+func mailTag(m *mail) {
+	s := S
+	if s == nil || s.cur == nil || m.tag == 0 {
+		return
+	}
+	s.setTag(s.cur, m.tag, true)
+	s.cur.jobChan = m.id
+	if s.cur.Kind == "task" || s.cur.Kind == "bg" {
+		s.cur.Kind = "handler"
+	}
+}
 
 // Close is close(ch).
 func Close[T any](ch chan<- T) {
@@ -244,6 +268,7 @@ func ResetGlobals() {
 	clockReads = nil
 	crashPending = nil
 	mailbox = nil
+	chanTags = nil
 	simTimers = nil
 }
 
@@ -279,9 +304,6 @@ func UserLog(rec any) {
 	if t := s.cur; t != nil {
 		r.Task = t.ID
 		r.Tag = t.Tag
-		if r.Tag == 0 {
-			r.Tag = t.pendTag
-		}
 		r.Inc = t.Inc
 	}
 	s.userLog = append(s.userLog, r)
@@ -309,10 +331,7 @@ func CurTaskID() int {
 //go:norace
 func CurTag() int64 {
 	if s := S; s != nil && s.cur != nil {
-		if s.cur.Tag != 0 {
-			return s.cur.Tag
-		}
-		return s.cur.pendTag
+		return s.cur.Tag
 	}
 	return 0
 }
